@@ -456,6 +456,31 @@ func (e *Engine) checkValidationLedger(r *Report) {
 					return
 				}
 				r.Fail("R2", ck, e.InstrPos(i), "explicit panic reachable from stateless validation of untrusted input")
+			case *ssa.IndexAddr, *ssa.Index:
+				// a constant index into a slice or string needs a length test on that very value, here or (for a parameter) at
+				// every call site inside the closure
+				var X, I ssa.Value
+				if ia, ok := x.(*ssa.IndexAddr); ok {
+					X, I = ia.X, ia.Index
+				} else {
+					X, I = x.(*ssa.Index).X, x.(*ssa.Index).Index
+				}
+				k, isK := constInt(I)
+				if !isK {
+					return
+				}
+				switch X.Type().Underlying().(type) {
+				case *types.Slice, *types.Basic:
+				default:
+					return // arrays and pointers to arrays have a static length
+				}
+				n++
+				ck := fmt.Sprintf("%s|index %s[%d]", key, vkey(X, 0), k)
+				if e.lengthGuarded(X, i, closure, 0) {
+					r.Ok("R2", ck, e.InstrPos(i), "a test of len() of the indexed value dominates the access")
+				} else {
+					r.Fail("R2", ck, e.InstrPos(i), fmt.Sprintf("element %d of a byte slice / string taken from the message is read without a dominating length test (here or at a call site in the validation closure): a shorter input panics with index out of range", k))
+				}
 			case ssa.CallInstruction:
 				nm := callName(x)
 				if len(e.calleesOf(x)) > 0 {
@@ -679,4 +704,59 @@ func (e *Engine) c20ParallelArrays(r *Report) {
 			r.Fail("R5", ck, e.InstrPos(s.in), "element i of "+s.idx+" is read for every i below len("+s.bnd+"), but the type's validator does not establish len("+s.idx+") == len("+s.bnd+") on every accepting path: a decoded value with a shorter "+s.idx+" passes validation and the index panics")
 		}
 	}
+}
+
+// lengthGuarded: instruction `at` (which indexes X) is dominated by a branch condition that mentions len(X); when X is a
+// parameter without such a test, every call site of the function inside `closure` must be guarded for its argument.
+func (e *Engine) lengthGuarded(X ssa.Value, at ssa.Instruction, closure map[*ssa.Function]bool, depth int) bool {
+	xk := vkey(X, 0)
+	for _, g := range GuardsOf(at) {
+		found := false
+		var scan func(v ssa.Value, d int)
+		scan = func(v ssa.Value, d int) {
+			if v == nil || d > 4 || found {
+				return
+			}
+			switch t := v.(type) {
+			case *ssa.Call:
+				if b, ok := t.Call.Value.(*ssa.Builtin); ok && b.Name() == "len" && len(t.Call.Args) == 1 {
+					if t.Call.Args[0] == X || vkey(t.Call.Args[0], 0) == xk {
+						found = true
+					}
+				}
+			case *ssa.BinOp:
+				scan(t.X, d+1)
+				scan(t.Y, d+1)
+			case *ssa.UnOp:
+				scan(t.X, d+1)
+			case *ssa.Convert:
+				scan(t.X, d+1)
+			}
+		}
+		scan(g.Cond, 0)
+		if found {
+			return true
+		}
+	}
+	par, ok := stripConv(X).(*ssa.Parameter)
+	if !ok || depth > 2 {
+		return false
+	}
+	fn := par.Parent()
+	pidx := paramIndex(par)
+	n := 0
+	for _, cs := range e.CallSites(fn) {
+		if !closure[rootFn(cs.Caller)] && !closure[cs.Caller] {
+			continue
+		}
+		n++
+		args := cs.Call.Common().Args
+		if cs.Call.Common().IsInvoke() || pidx >= len(args) {
+			return false
+		}
+		if !e.lengthGuarded(args[pidx], cs.Call, closure, depth+1) {
+			return false
+		}
+	}
+	return n > 0
 }
